@@ -29,7 +29,7 @@ US = timedelta(microseconds=1)
 
 def plan(tier, seed):
     k = 8 if tier == "quick" else 64
-    return [{"kind": "affine", "sub": i, "n": 2500 if tier == "quick" else 20000} for i in range(k)]
+    return [{"kind": "affine", "sub": i, "n": 2500 if tier == "quick" else 20000} for i in range(k)] + [{"kind": "repo-tests", "part": "time"}]
 
 
 def floors(tier):
@@ -122,6 +122,12 @@ def worker(ctx, shard):
     lm = LinearMonitor().install()
     import labella.scale as S
 
+    if shard["kind"] == "repo-tests":
+        from props import workload_r
+
+        tm.uninstall(); lm.uninstall()
+        workload_r.judge(ctx, shard["part"])
+        return
     rng = ctx.rng("affine%d" % shard["sub"])
     for _ in range(shard["n"]):
         a, b, _m, tag = timedom.gen_time_domain(rng)
